@@ -325,3 +325,250 @@ Example ex_lifo_differs :
   | _, _ => true
   end = true.
 Proof. vm_compute. reflexivity. Qed.
+
+(* ================================================================================================ *)
+(* Composition with C09: the block processor ON the labelled transition system of threadpool.c       *)
+(* ================================================================================================ *)
+(* Closes the gap "threadpool.c is a [fifo_pool]" (props/C02/NOTES.md, weak spot A1).  coq/BpPool/:
+     TpExec.v    submit/dequeue that RUN C09's LTS [PoolModel.step] (repaired code, any number of workers)
+                 along a scheduler oracle until the main thread's call returns; pool state = LTS state
+                 + table of the submitted blocks + the remaining schedule;
+     TpReturn.v  every call returns, with the effect of the FIFO specification (C09's [sim_step] and
+                 invariants [Inv], [Sync], [FInv] applied step by step);
+     TpLaws.v    the two laws of a FIFO pool;   TpTrace.v  these executions are runs of the LTS, every
+                 state is [reachable];   PoolMap.v / Compose.v  transfer to C02's theorems.
+   Schedules: an arbitrary finite prefix of scheduler choices (which thread performs its next critical
+   section; spurious wake-ups of any waiter; choices of blocked threads are skipped), then rounds
+   [sched k] = finite lists of choices; [admissible n sched] (bounded weak fairness): every round gives
+   each of the n+1 threads at least one turn.  Order, repetitions, round lengths and the spurious
+   wake-ups are unrestricted.  Calls are total functions; no "the call returned" hypothesis is left:
+   C09's invariants (the case analysis of pool_no_stuck) yield in every state of a blocked call a thread
+   whose next step returns the call or decreases a variant [nu] of C09's measure [mu] that spurious
+   wake-ups do not increase (TpReturn.v: hot_exists, hot_fires, step_frame, exec_round_nu).
+   Items: C09's items are [nat]; submission i is item 2i, the callback is [S], item 2i+1 decodes to
+   [process_block (block i)].  That this encoding is harmless is part of the laws below: they speak
+   about blocks. *)
+From Coq Require Import Lia.
+From SqfsV Require C09.PoolModel C09.PoolSafety C09.PoolRefine.
+From SqfsV Require Import BpPool.PoolMap BpPool.TpExec BpPool.TpReturn BpPool.TpLaws BpPool.TpTrace BpPool.Compose.
+
+Section Composition.
+Variable hash : list N -> N.
+Variable compress : list N -> option (list N).
+Variable HT : Type.
+Variable ht_search : HT -> blk -> option (N * N).
+Variable ht_insert : HT -> blk -> N * N -> HT.
+Variable BW : Type.
+Variable bw_write : BW -> blk -> BW * N.
+
+Notation pblock := (process_block hash compress).
+
+(* a FIFO pool whose laws hold under an invariant of its state (the record [fifo_pool] above demands
+   them for every value of the state type) *)
+Record fifo_pool_inv : Type := {
+  fpi_state : Type;
+  fpi_submit : fpi_state -> blk -> fpi_state;
+  fpi_dequeue : fpi_state -> option (blk * fpi_state);
+  fpi_alpha : fpi_state -> list blk;
+  fpi_inv : fpi_state -> Prop;
+  fpi_submit_ok : forall p b, fpi_inv p ->
+                  fpi_inv (fpi_submit p b) /\ fpi_alpha (fpi_submit p b) = fpi_alpha p ++ [b];
+  fpi_deq_inv : forall p b p', fpi_inv p -> fpi_dequeue p = Some (b, p') -> fpi_inv p';
+  fpi_deq_cons : forall p b r, fpi_inv p -> fpi_alpha p = b :: r ->
+                 exists p', fpi_dequeue p = Some (pblock b, p') /\ fpi_alpha p' = r
+}.
+
+Definition run_on_inv (pool : fifo_pool_inv) (p0 : fpi_state pool) (bs backlog : N) (ht0 : HT) (bw0 : BW)
+                      (files : list file) :=
+  BpModel.run HT ht_search ht_insert BW bw_write (fpi_state pool) (fpi_submit pool) (fpi_dequeue pool)
+              bs (clamp_backlog backlog) p0 ht0 bw0 files.
+
+(* C02's main theorems (writes, inodes, fragment table) for pools with an invariant *)
+Theorem bp_refines_spec_inv :
+  forall (pool : fifo_pool_inv) (p0 : fpi_state pool) bs backlog ht0 bw0 files,
+  fpi_inv pool p0 -> fpi_alpha pool p0 = [] -> 0 < bs -> Forall file_ok files ->
+  exists s, run_on_inv pool p0 bs backlog ht0 bw0 files = Ok s /\
+            (s_bw _ _ _ s, s_writes _ _ _ s) = spec_of hash compress HT ht_search ht_insert BW bw_write bs ht0 bw0 files /\
+            s_backlog _ _ _ s = 0 /\
+            (forall k, s_ino _ _ _ s k = inodes_of hash compress HT ht_search ht_insert BW bw_write bs ht0 bw0 files k) /\
+            s_ftbl _ _ _ s = ftbl_of hash compress HT ht_search ht_insert BW bw_write bs ht0 bw0 files /\
+            fpi_inv pool (s_pool _ _ _ s).
+Proof.
+  intros pool p0 bs backlog ht0 bw0 files H0 H1 H2 H3.
+  exact (run_refines_spec_inv hash compress HT ht_search ht_insert BW bw_write (fpi_state pool)
+           (fpi_submit pool) (fpi_dequeue pool) (fpi_alpha pool) (fpi_inv pool) bs (clamp_backlog backlog) bw0
+           (fpi_submit_ok pool) (fpi_deq_inv pool) (fpi_deq_cons pool) (clamp_ge3 backlog) p0 ht0 files H0 H1 H2 H3).
+Qed.
+
+(* the old record is the instance with the trivial invariant, with the same runs *)
+Definition fifo_pool_as_inv (pool : fifo_pool hash compress) : fifo_pool_inv :=
+  Build_fifo_pool_inv (fp_state _ _ pool) (fp_submit _ _ pool) (fp_dequeue _ _ pool) (fp_alpha _ _ pool)
+    (fun _ => True)
+    (fun p b _ => conj I (fp_submit_ok _ _ pool p b))
+    (fun _ _ _ _ _ => I)
+    (fun p b r _ E => fp_deq_cons _ _ pool p b r E).
+
+Theorem fifo_pool_is_fifo_pool_inv :
+  forall (pool : fifo_pool hash compress) p0 bs backlog ht0 bw0 files,
+  run_on_inv (fifo_pool_as_inv pool) p0 bs backlog ht0 bw0 files
+  = run_on hash compress HT ht_search ht_insert BW bw_write pool p0 bs backlog ht0 bw0 files.
+Proof. reflexivity. Qed.
+
+(* ---- the pool of threadpool.c ---- *)
+Variable cb_st : nat -> Z.         (* status returned by the worker callback for each work item *)
+Variable sched : schedule.
+Variable n : nat.                  (* number of worker threads *)
+
+(* no-failure hypothesis: the callback reports success for every item (the model's [compress] cannot
+   fail; compressor failures are C13's subject, the pool's behaviour after a failure C09's) *)
+Definition nofail_cb : Prop := forall d, cb_st d = 0%Z.
+
+Notation TP := (tpool).
+Notation tp_sub := (tpool_submit cb_st sched).
+Notation tp_deq := (tpool_dequeue hash compress cb_st sched).
+Notation tp_abs := (tpool_alpha hash compress).
+Notation tp_inv := (tpool_inv cb_st n).
+
+(* threadpool.c's LTS, for every number of workers n >= 1 and every admissible schedule, satisfies
+   the laws C02's proofs consume (under the invariant [tpool_inv], which also says that the LTS state is
+   reachable in C09's sense and that no call is in progress) *)
+Theorem threadpool_is_fifo_pool :
+  nofail_cb -> (n >= 1)%nat -> admissible n sched ->
+  (forall prefix, tp_inv (tpool_init n prefix) /\ tp_abs (tpool_init n prefix) = []) /\
+  (forall p b, tp_inv p -> tp_inv (tp_sub p b) /\ tp_abs (tp_sub p b) = tp_abs p ++ [b]) /\
+  (forall p b p', tp_inv p -> tp_deq p = Some (b, p') -> tp_inv p') /\
+  (forall p b r, tp_inv p -> tp_abs p = b :: r ->
+     exists p', tp_deq p = Some (pblock b, p') /\ tp_abs p' = r).
+Proof. exact (threadpool_laws hash compress cb_st sched n). Qed.
+
+(* ... as an instance of the record *)
+Definition threadpool_pool (Hnf : nofail_cb) (Hn : (n >= 1)%nat) (Hadm : admissible n sched) : fifo_pool_inv :=
+  Build_fifo_pool_inv TP tp_sub tp_deq tp_abs tp_inv
+    (proj1 (proj2 (threadpool_is_fifo_pool Hnf Hn Hadm)))
+    (proj1 (proj2 (proj2 (threadpool_is_fifo_pool Hnf Hn Hadm))))
+    (proj2 (proj2 (proj2 (threadpool_is_fifo_pool Hnf Hn Hadm)))).
+
+(* the encoding of blocks as work items is harmless: a freshly submitted item decodes to the submitted
+   block, later submissions do not change what an item decodes to, and the callback's effect on an item
+   ([cbmark], the [cb_val] of the LTS) decodes to [process_block] on the block *)
+Theorem threadpool_item_encoding :
+  (forall tbl b, decode blk pblock dflt_blk (tbl ++ [b]) (2 * length tbl) = b) /\
+  (forall tbl b d, item_ok (length tbl) d -> decode blk pblock dflt_blk (tbl ++ [b]) d = decode blk pblock dflt_blk tbl d) /\
+  (forall tbl d, Nat.even d = true -> decode blk pblock dflt_blk tbl (cbmark d) = pblock (decode blk pblock dflt_blk tbl d)).
+Proof.
+  split; [|split].
+  - exact (decode_new blk pblock dflt_blk).
+  - exact (decode_app_old blk pblock dflt_blk).
+  - exact (decode_processed blk pblock dflt_blk).
+Qed.
+
+(* every pool state the block processor can see is a reachable state of C09's LTS and is obtained
+   from the previous one by a run of the LTS; no hypothesis on schedule, workers or callback *)
+Theorem threadpool_states_reachable :
+  (forall prefix, tp_reach cb_st blk n (tpool_init n prefix)) /\
+  (forall p b, tp_reach cb_st blk n p -> tp_reach cb_st blk n (tp_sub p b)) /\
+  (forall p b p', tp_reach cb_st blk n p -> tp_deq p = Some (b, p') -> tp_reach cb_st blk n p').
+Proof.
+  split; [|split].
+  - exact (tp_init_reach cb_st blk n).
+  - exact (tp_submit_reach cb_st sched blk n).
+  - exact (tp_dequeue_reach cb_st sched blk pblock dflt_blk n).
+Qed.
+
+(* Composition.  For every file list, requested backlog, number of workers n >= 1, schedule prefix and
+   admissible schedule: the block processor running ON THE LTS OF threadpool.c returns Ok, leaves nothing
+   in flight, hands exactly the specification's blocks to the block writer and produces the
+   specification's inodes and fragment table -- the same as the serial pool with the minimal backlog.
+   ([bp_schedule_irrelevant] and [bp_inodes_schedule_backlog_irrelevant] with "every FIFO pool" replaced
+   by "threadpool.c's LTS under every schedule and worker count".) *)
+Theorem bp_on_threadpool :
+  forall prefix bs backlog ht0 bw0 files,
+  nofail_cb -> (n >= 1)%nat -> admissible n sched -> 0 < bs -> Forall file_ok files ->
+  exists s sref,
+    run_on_threadpool hash compress HT ht_search ht_insert BW bw_write cb_st sched n prefix bs backlog ht0 bw0 files = Ok s /\
+    run_on hash compress HT ht_search ht_insert BW bw_write (serial_pool hash compress) [] bs 0 ht0 bw0 files = Ok sref /\
+    (s_bw _ _ _ s, s_writes _ _ _ s) = spec_of hash compress HT ht_search ht_insert BW bw_write bs ht0 bw0 files /\
+    s_writes _ _ _ s = s_writes _ _ _ sref /\ s_bw _ _ _ s = s_bw _ _ _ sref /\
+    (forall k, s_ino _ _ _ s k = inodes_of hash compress HT ht_search ht_insert BW bw_write bs ht0 bw0 files k) /\
+    (forall k, s_ino _ _ _ s k = s_ino _ _ _ sref k) /\
+    s_ftbl _ _ _ s = ftbl_of hash compress HT ht_search ht_insert BW bw_write bs ht0 bw0 files /\
+    s_ftbl _ _ _ s = s_ftbl _ _ _ sref /\
+    s_backlog _ _ _ s = 0 /\
+    tp_inv (s_pool _ _ _ s).
+Proof.
+  intros prefix bs backlog ht0 bw0 files Hnf Hn Hadm Hbs Hf.
+  destruct (bp_on_threadpool_l hash compress HT ht_search ht_insert BW bw_write cb_st sched n Hnf Hn Hadm
+              prefix bs backlog ht0 bw0 files Hbs Hf) as (s & A1 & A2 & A3 & A4 & A5 & A6).
+  destruct (bp_refines_spec hash compress HT ht_search ht_insert BW bw_write (serial_pool hash compress) [] bs 0
+              ht0 bw0 files eq_refl Hbs Hf) as (s2 & B1 & B2 & _).
+  destruct (bp_inodes_refine_spec hash compress HT ht_search ht_insert BW bw_write (serial_pool hash compress) [] bs 0
+              ht0 bw0 files eq_refl Hbs Hf) as (s3 & C1 & C2 & C3).
+  rewrite B1 in C1. injection C1 as C1. subst s3.
+  exists s, s2. split; [exact A1|]. split; [exact B1|]. split; [exact A2|].
+  assert (E : (s_bw _ _ _ s, s_writes _ _ _ s) = (s_bw _ _ _ s2, s_writes _ _ _ s2)).
+  { rewrite B2. exact A2. }
+  injection E as E1 E2.
+  split; [exact E2|]. split; [exact E1|]. split; [exact A4|].
+  split; [intro k; rewrite A4, C2; reflexivity|]. split; [exact A5|].
+  split; [rewrite A5, C3; reflexivity|]. split; [exact A3|exact A6].
+Qed.
+
+End Composition.
+Print Assumptions bp_refines_spec_inv.
+Print Assumptions threadpool_is_fifo_pool.
+Print Assumptions threadpool_item_encoding.
+Print Assumptions threadpool_states_reachable.
+Print Assumptions bp_on_threadpool.
+
+(* ---- non-vacuity of the composition ---- *)
+(* 2 workers.  The prefix starts with worker 0 going to sleep on the empty queue, a spurious wake-up of
+   it and its going back to sleep (these three labels are enabled in this order: first clause of the
+   example); later the main thread is pre-empted between and inside its calls.  Every round begins with
+   spurious wake-ups of all three threads and contains more of them. *)
+Definition ex_prefix : list choice :=
+  [CWorker 0; CSpurWorker 0; CWorker 0; CMain; CWorker 1; CMain; CMain; CWorker 1; CWorker 0; CSpurMain;
+   CMain; CWorker 1; CWorker 1].
+
+Definition ex_sched : schedule := fun k =>
+  if Nat.even k
+  then [CSpurMain; CSpurWorker 0; CSpurWorker 1; CWorker 1; CSpurWorker 0; CMain; CWorker 1; CSpurMain; CWorker 0]
+  else [CSpurWorker 1; CSpurMain; CSpurWorker 0; CWorker 0; CMain; CSpurWorker 0; CSpurWorker 1; CWorker 0; CWorker 1; CMain].
+
+Example ex_sched_admissible : admissible 2 ex_sched /\ nofail_cb (fun _ => 0%Z).
+Proof.
+  split; [|intro; reflexivity]. intro k. unfold ex_sched.
+  assert (W : forall p, In (CWorker 0) p -> In (CWorker 1) p -> forall w, (w < 2)%nat -> In (CWorker w) p).
+  { intros p P0 P1 w Hw. destruct w as [|[|w]]; auto. exfalso. lia. }
+  destruct (Nat.even k); (split; [simpl; auto 12|apply W; simpl; auto 12]).
+Qed.
+
+Definition ex_tp_run (q : N) (files : list file) :=
+  run_on_threadpool sum_hash toy_compress cht cht_search cht_insert cbw cbw_write (fun _ => 0%Z) ex_sched 2
+                    ex_prefix 4 q [] (mkBw [] [] O) files.
+
+Definition ex_obs {P} (r : res (st cht cbw P)) :=
+  match r with
+  | Ok s => Some (s_writes _ _ _ s, w_file (s_bw _ _ _ s), map (s_ino _ _ _ s) [0; 1; 2; 3; 4; 5; 6], s_ftbl _ _ _ s)
+  | _ => None
+  end.
+
+(* a concrete run on the LTS, computed: the write calls, the output file, the inodes and the fragment
+   table equal those of the serial run, for the six files above and for three files, for backlog 3 and
+   40; all 16 work items went through a worker, several of them completed out of submission order
+   ([g_ran] lists tickets, latest first), 24 resp. 20 rounds of the schedule were used *)
+Example ex_on_threadpool :
+  PoolModel.run cbmark (fun _ => 0%Z) true (PoolModel.init 2)
+      [PoolModel.LWorker 0; PoolModel.LSpurWorker 0; PoolModel.LWorker 0] <> None /\
+  ex_obs (ex_tp_run 3 ex_files) = ex_obs (run_concrete sum_hash 4 3 ex_files) /\
+  ex_obs (ex_tp_run 40 ex_files) = ex_obs (run_concrete sum_hash 4 0 ex_files) /\
+  ex_obs (ex_tp_run 3 (firstn 3 ex_files)) = ex_obs (run_concrete sum_hash 4 3 (firstn 3 ex_files)) /\
+  option_map (fun x => length (fst (fst (fst x)))) (ex_obs (ex_tp_run 3 ex_files)) = Some 11%nat /\
+  match ex_tp_run 3 ex_files, ex_tp_run 40 ex_files with
+  | Ok s, Ok s' =>
+      PoolModel.g_ran (tp_pool _ (s_pool _ _ _ s)) = [15; 14; 13; 12; 11; 10; 9; 8; 7; 6; 5; 4; 3; 1; 2; 0]%nat /\
+      tp_k _ (s_pool _ _ _ s) = 24%nat /\
+      PoolModel.g_ran (tp_pool _ (s_pool _ _ _ s')) = [15; 14; 12; 13; 11; 10; 8; 9; 6; 7; 5; 4; 1; 3; 2; 0]%nat /\
+      tp_k _ (s_pool _ _ _ s') = 20%nat
+  | _, _ => False
+  end.
+Proof. vm_compute. repeat split; try reflexivity. discriminate. Qed.
